@@ -105,6 +105,8 @@ def run(tier, seed):
                  "extent (C strings, libc objects, the realloc'ed raw header data) are counted by category and NOT proven; for raw header data "
                  "the guards are shown to be in force (C12) but their arithmetic sufficiency is not decided.")
     with Context(tier) as ctx:
+        from .. import selfcheck
+        selfcheck.run(ctx, rep, ['range', 'own'])
         mod = ctx.plain()
         cg = CallGraph(mod)
         paths = ctx.views.inlined_many(list(UNITS))
